@@ -3,7 +3,7 @@
 cd /verif
 for id in "$@"; do
   s=$(date +%s)
-  out=$(SYMGO_WORKERS=${SYMGO_WORKERS:-8} ./check $id ${TIER:-quick} 2>&1)
+  out=$(SYMGO_WORKERS=${SYMGO_WORKERS:-8} ./check $id ${TIER:-quick} ${EXTRA:-} 2>&1)
   rc=$?
   e=$(date +%s)
   echo "$id rc=$rc wall=$((e-s))s $(echo "$out" | grep -c '^VIOLATION') viol $(echo "$out" | grep -c '^KNOWN-FINDING') known"
